@@ -12,7 +12,9 @@ REAL_VS_STUB = {
         'process death: folder snapshot taken at a seam boundary without flushing library buffers',
         'power loss: fsync ledger keyed by inode, unsynced file data dropped from the snapshot',
         'I/O errors: raised by the seam instead of / after the real call',
-        'rsync/ssh/coreutils of the backup: in-process copier with per-file and per-chunk yield points',
+        'rsync/ssh/coreutils of the backup: in-process copier with per-file and per-chunk yield points, cross-checked against '
+        '/usr/bin/rsync on generated trees (tools/rsync_fidelity.py); 4 % (quick) / 15 % (thorough) of the C15 runs use the real '
+        '/usr/bin/rsync and coreutils through the unmodified BackupManager, one scheduling point per external call',
         'uuid4, directory listing order: seeded',
     ],
     'trusted_not_simulated': [
@@ -100,7 +102,8 @@ INFO = {
     'C14': _p('exploration', 'two containers, import matrix (iterable kinds, callback, memory budget, hash types): ' + HIST_RULE, 900),
     'C15': _p(
         'exploration',
-        'backup actor (real backup_container, in-process rsync stub with per-file/per-chunk yield points) scheduled '
+        'backup actor (real backup_container; in-process rsync stub with per-file/per-chunk yield points, the real rsync in '
+        'a fraction of the runs) scheduled '
         'against writers and one pack-writer; non-trivial = a pack-writer COMMIT or loose unlink fell between the first and '
         'last copy step; distinct = distinct schedule digest',
         1500,
